@@ -247,11 +247,78 @@ pub fn location_is_harness(loc: &str) -> bool {
     loc.starts_with("lorasim/") || loc.starts_with("physim/") || loc.starts_with("simcore/") || loc.contains("/verif/")
 }
 
-struct PerRun {
-    run: u64,
-    shape: u64,
-    nontrivial: bool,
-    violation: Option<Violation>,
+/// Per-worker tallies (merged at the end; every quantity is independent of how runs were split).
+#[derive(Default)]
+struct Tally {
+    runs: u64,
+    nontrivial_runs: u64,
+    /// distinct trace-shape hashes of non-trivial runs (capped; the count is then a lower bound)
+    shapes: BTreeSet<u64>,
+    /// commutative digest over (run, shape, violation signature)
+    digest: u64,
+    /// signature -> (lowest run index, violation of that run, number of runs)
+    by_sig: BTreeMap<String, (u64, Violation, u64)>,
+}
+
+const SHAPE_CAP: usize = 6_000_000;
+
+impl Tally {
+    fn note(&mut self, run: u64, shape: u64, nontrivial: bool, violation: Option<Violation>) {
+        self.runs += 1;
+        let mut h = crate::prng::Fnv::new();
+        h.u64(run);
+        h.u64(shape);
+        if let Some(v) = &violation {
+            h.str(&v.signature);
+        }
+        self.digest = self.digest.wrapping_add(h.finish());
+        if nontrivial {
+            self.nontrivial_runs += 1;
+            if self.shapes.len() < SHAPE_CAP {
+                self.shapes.insert(shape);
+            }
+        }
+        if let Some(v) = violation {
+            match self.by_sig.get_mut(&v.signature) {
+                Some(e) => {
+                    e.2 += 1;
+                    if run < e.0 {
+                        e.0 = run;
+                        e.1 = v;
+                    }
+                }
+                None => {
+                    if self.by_sig.len() < 10_000 {
+                        self.by_sig.insert(v.signature.clone(), (run, v, 1));
+                    }
+                }
+            }
+        }
+    }
+    fn merge(&mut self, o: Tally) {
+        self.runs += o.runs;
+        self.nontrivial_runs += o.nontrivial_runs;
+        self.digest = self.digest.wrapping_add(o.digest);
+        for s in o.shapes {
+            if self.shapes.len() < SHAPE_CAP {
+                self.shapes.insert(s);
+            }
+        }
+        for (k, (run, v, n)) in o.by_sig {
+            match self.by_sig.get_mut(&k) {
+                Some(e) => {
+                    e.2 += n;
+                    if run < e.0 {
+                        e.0 = run;
+                        e.1 = v;
+                    }
+                }
+                None => {
+                    self.by_sig.insert(k, (run, v, n));
+                }
+            }
+        }
+    }
 }
 
 pub const EXIT_OK: i32 = 0;
@@ -350,7 +417,7 @@ pub fn run_check<P: Property>(p: &P, opts: &Opts) -> i32 {
     let next = AtomicU64::new(0);
     let harness_error: Mutex<Option<String>> = Mutex::new(None);
     let stop = AtomicBool::new(false);
-    let per_run: Mutex<Vec<PerRun>> = Mutex::new(Vec::with_capacity(total as usize));
+    let tally: Mutex<Tally> = Mutex::new(Tally::default());
     let agg: Mutex<Agg> = Mutex::new(Agg::default());
     // watchdog bookkeeping: per worker (run index + 1, started-at millis since `started`)
     let current: Vec<(AtomicU64, AtomicU64)> = (0..opts.workers).map(|_| (AtomicU64::new(0), AtomicU64::new(0))).collect();
@@ -361,14 +428,14 @@ pub fn run_check<P: Property>(p: &P, opts: &Opts) -> i32 {
         for w in 0..opts.workers {
             let next = &next;
             let stop = &stop;
-            let per_run = &per_run;
+            let tally = &tally;
             let agg = &agg;
             let harness_error = &harness_error;
             let avoid = &avoid;
             let current = &current;
             s.spawn(move || {
                 let mut local = Agg::default();
-                let mut local_runs: Vec<PerRun> = Vec::new();
+                let mut local_tally = Tally::default();
                 loop {
                     if stop.load(Ordering::Relaxed) {
                         break;
@@ -385,12 +452,7 @@ pub fn run_check<P: Property>(p: &P, opts: &Opts) -> i32 {
                         match guarded_execute(p, &case, false) {
                             Ok(out) => {
                                 local.absorb(&out.stats, run, &case, p);
-                                local_runs.push(PerRun {
-                                    run,
-                                    shape: out.stats.shape,
-                                    nontrivial: out.stats.nontrivial,
-                                    violation: out.violation,
-                                });
+                                local_tally.note(run, out.stats.shape, out.stats.nontrivial, out.violation);
                             }
                             Err(e) => {
                                 let mut he = harness_error.lock().unwrap();
@@ -406,7 +468,7 @@ pub fn run_check<P: Property>(p: &P, opts: &Opts) -> i32 {
                 }
                 current[w].0.store(0, Ordering::Relaxed);
                 agg.lock().unwrap().merge(local);
-                per_run.lock().unwrap().append(&mut local_runs);
+                tally.lock().unwrap().merge(local_tally);
             });
         }
         // watchdog
@@ -459,32 +521,17 @@ pub fn run_check<P: Property>(p: &P, opts: &Opts) -> i32 {
         return EXIT_HARNESS;
     }
 
-    let mut per_run = per_run.into_inner().unwrap();
-    per_run.sort_by_key(|r| r.run);
+    let tally = tally.into_inner().unwrap();
     let agg = agg.into_inner().unwrap();
 
     if opts.print_digest {
-        let mut h = crate::prng::Fnv::new();
-        for r in &per_run {
-            h.u64(r.run);
-            h.u64(r.shape);
-            if let Some(v) = &r.violation {
-                h.str(&v.signature);
-            }
-        }
-        println!("DIGEST property={id} runs={} digest={:016x}", per_run.len(), h.finish());
+        println!("DIGEST property={id} runs={} digest={:016x}", tally.runs, tally.digest);
     }
 
     // 3. triage
-    let mut by_sig: BTreeMap<String, (u64, Violation, u64)> = BTreeMap::new(); // sig -> (first run, violation, count)
-    for r in &per_run {
-        if let Some(v) = &r.violation {
-            let e = by_sig.entry(v.signature.clone()).or_insert((r.run, v.clone(), 0));
-            e.2 += 1;
-        }
-    }
+    let by_sig = &tally.by_sig;
     let mut new_violations: Vec<(String, u64, Violation, u64)> = Vec::new();
-    for (sig, (run, v, count)) in &by_sig {
+    for (sig, (run, v, count)) in by_sig {
         if let Some(kf) = known.matches(id, sig) {
             known_lines.insert(format!("KNOWN-FINDING: property={id} {} [{}]", kf.description, kf.signature));
         } else {
@@ -578,12 +625,7 @@ pub fn run_check<P: Property>(p: &P, opts: &Opts) -> i32 {
     // 4. evidence
     let wall = started.elapsed().as_secs_f64();
     let n_viol = new_violations.len();
-    let mut shapes: BTreeSet<u64> = BTreeSet::new();
-    for r in &per_run {
-        if r.nontrivial {
-            shapes.insert(r.shape);
-        }
-    }
+    let shapes = &tally.shapes;
     let mut warnings = Vec::new();
     for pr in p.expected_probes(opts.tier) {
         if agg.counters.get(pr).copied().unwrap_or(0) == 0 {
@@ -594,7 +636,7 @@ pub fn run_check<P: Property>(p: &P, opts: &Opts) -> i32 {
         println!("warning: {w}");
     }
     if opts.write_evidence {
-        let runs = per_run.len() as u64;
+        let runs = tally.runs;
         let ev = serde_json::json!({
             "property_id": id,
             "tier": opts.tier.name(),
@@ -605,7 +647,8 @@ pub fn run_check<P: Property>(p: &P, opts: &Opts) -> i32 {
                 "distinct_nontrivial": shapes.len(),
                 "rule": p.rule(),
                 "samples": agg.samples,
-                "nontrivial_runs": per_run.iter().filter(|r| r.nontrivial).count(),
+                "nontrivial_runs": tally.nontrivial_runs,
+                "distinct_nontrivial_is_lower_bound": shapes.len() >= SHAPE_CAP,
                 "distinct_states": agg.states.len(),
                 "simulated_time_s": agg.sim_ms as f64 / 1000.0,
                 "simulator_events": agg.steps,
@@ -633,7 +676,7 @@ pub fn run_check<P: Property>(p: &P, opts: &Opts) -> i32 {
     }
     println!(
         "property={id} runs={} nontrivial_shapes={} states={} sim_time_s={:.0} violations={} known={} wall_s={:.1}",
-        per_run.len(),
+        tally.runs,
         shapes.len(),
         agg.states.len(),
         agg.sim_ms as f64 / 1000.0,
